@@ -220,6 +220,12 @@ func (p *Prog) posStr(pos token.Pos) string {
 
 func (p *Prog) at(ins ssa.Instruction) string {
 	pos := ins.Pos()
+	if iff, ok := ins.(*ssa.If); ok && !pos.IsValid() {
+		// a branch has no position of its own: its condition does
+		if v, ok := iff.Cond.(ssa.Instruction); ok && v.Pos().IsValid() {
+			pos = v.Pos()
+		}
+	}
 	if !pos.IsValid() {
 		// fall back to the nearest positioned instruction in the block, then the function
 		if b := ins.Block(); b != nil {
